@@ -25,6 +25,7 @@ var SchemaClauses = []string{
 	"undefined-type:union-member",
 	"undefined-type:interface",
 	"undefined-type:root",
+	"wrong-kind:root-not-object",
 	"wrong-kind:union-member-not-object",
 	"wrong-kind:implements-non-interface",
 	"wrong-kind:input-type-in-output-position",
@@ -443,6 +444,57 @@ func (g *fgen) inject(clause string) string {
 				s.Subscription = u
 			}
 			return "replace-" + s.RootOps[i].Op
+		}
+	case "wrong-kind:root-not-object":
+		// a well-formed type of a kind other than OBJECT …
+		nonObject := func(name string) *TypeDef {
+			k := rng.Pick(r, []Kind{Scalar, Interface, Union, Enum, InputObject})
+			t := &TypeDef{Kind: k, Name: name}
+			switch k {
+			case Interface, InputObject:
+				t.Fields = []*FieldDef{{Name: "a", Type: Named("Int")}}
+			case Enum:
+				t.Values = []*EnumVal{{Name: "A"}}
+			case Union:
+				t.Members = []NameExt{{Name: g.anObject().Name}}
+			}
+			return g.add(t)
+		}
+		// … inferred as a root from its default name (no schema definition) …
+		if !s.HasSchemaBlock && (s.Mutation == "" || s.Subscription == "") && r.Bool() {
+			if s.Mutation == "" && (s.Subscription != "" || r.Bool()) {
+				t := nonObject("Mutation")
+				s.Mutation = t.Name
+				return "default-name-mutation-" + t.Kind.keyword()
+			}
+			t := nonObject("Subscription")
+			s.Subscription = t.Name
+			return "default-name-subscription-" + t.Kind.keyword()
+		}
+		// … or named by the schema definition
+		g.ensureSchemaBlock()
+		t := nonObject(g.fresh("ZzRoot"))
+		switch {
+		case s.Mutation == "" && r.Bool():
+			s.RootOps = append(s.RootOps, RootOp{Op: "mutation", Type: t.Name})
+			s.Mutation = t.Name
+			return "mutation-" + t.Kind.keyword()
+		case s.Subscription == "" && r.Bool():
+			s.RootOps = append(s.RootOps, RootOp{Op: "subscription", Type: t.Name})
+			s.Subscription = t.Name
+			return "subscription-" + t.Kind.keyword()
+		default:
+			i := r.Intn(len(s.RootOps))
+			s.RootOps[i].Type = t.Name
+			switch s.RootOps[i].Op {
+			case "query":
+				s.Query = t.Name
+			case "mutation":
+				s.Mutation = t.Name
+			default:
+				s.Subscription = t.Name
+			}
+			return "replace-" + s.RootOps[i].Op + "-" + t.Kind.keyword()
 		}
 	case "wrong-kind:union-member-not-object":
 		m := g.aNonObjectOutput()
